@@ -150,7 +150,8 @@ def run(ctx):
     geoms = [(1, 1), (2, 1), (3, 2), (4, 3), (7, 1), (8, 4)] if big else [(1, 1), (3, 2), (8, 4)]
     # every second instance: no example of domain 1 in the whole cohort (its mean loss is 0/0 unless guarded)
     dom = (lambda ci, j: (ci + j) % 2) if i % 2 == 0 else (lambda ci, j: 0)
-    for (bs, bk) in geoms:
+    for gi, (bs, bk) in enumerate(geoms):
+      gbackend = (None, 'debug', 'pmap')[gi % 3]      # ... nor on the for_each_client backend
       for reg_lam in (0.0, 0.5):
         name = f'instance {i} sizes {sizes}'
         reg = (lambda p: 0.5 * reg_lam * sum(jnp.sum(x ** 2) for x in jax.tree_util.tree_leaves(p))) if reg_lam else None
@@ -208,7 +209,7 @@ def run(ctx):
                    'holds': bool(okg)})
       # Mime / MimeLite rounds (server gradient from padded batches enters through the optimizer state / control variate)
       for aname in ('mime', 'mime_lite'):
-        rec = algs.run_rounds(fedjax, aname, c, pad_bs=bs, buckets=bk, base=fedjax.optimizers.sgd(0.25, momentum=0.5), server_lr=1.0)
+        rec = algs.run_rounds(fedjax, aname, c, pad_bs=bs, buckets=bk, base=fedjax.optimizers.sgd(0.25, momentum=0.5), server_lr=1.0, backend=gbackend)
         if rec['error']:
           ev.append({'e': 'Fact', 'name': 'Runs', 'about': f'{aname} {name}: {rec["error"]}', 'holds': False})
         else:
